@@ -104,7 +104,7 @@ func (p *c17Prog) runOK(i, j int) bool {
 }
 
 func c17Gen(c *core.Ctx) {
-	n := c.Pick(6000, 100000)
+	n := c.Pick(6000, 600000)
 	for i := 0; i < n; i++ {
 		r := c.Rand("prog", int64(i))
 		o := gen.Options{Budget: 3 + r.IntN(12), Heredocs: i%5 == 0, Flat: i%4 == 1}
